@@ -10,7 +10,7 @@ Writes /verif/seeded/<name>/result.json.
 import sys, os, json, subprocess, time, argparse
 
 VERIF = os.path.dirname(os.path.dirname(os.path.abspath(__file__)))
-REPO = '/repo'
+REPO = os.environ.get('SEED_REPO', '/repo')
 PYTEST = ['/venv/bin/python', '-m', 'pytest', '-q', '-p', 'no:cacheprovider', '--timeout=900', '-x']
 
 
@@ -53,7 +53,7 @@ def main():
             res['demo_mutated_tail'] = o2.strip()[-400:]
         for c in checks:
             t0 = time.time()
-            rc, out = sh([os.path.join(VERIF, 'bin', 'check'), c, '--tier', a.tier], cwd=VERIF, env=dict(os.environ, VERIF_SEED=os.environ.get('VERIF_SEED', '0')))
+            rc, out = sh([os.path.join(VERIF, 'bin', 'check'), c, '--tier', a.tier], cwd=VERIF, env=dict(os.environ, VERIF_SEED=os.environ.get('VERIF_SEED', '0'), XFAB_REPO=REPO))
             lines = [l for l in out.split('\n') if l.startswith('VIOLATION') or l.startswith('INFRA') or l.startswith('  broken') or l.startswith('  {')]
             res['checks'][c] = {'rc': rc, 'wall_s': round(time.time() - t0, 1), 'lines': lines[:8],
                                 'no_failing_input': any('no-failing-input-found' in l for l in lines)}
